@@ -81,6 +81,18 @@ Eval(op, a, n) ==
     [] op = "PlonkGate" ->   \* asserts qL.a + qR.b + qO.o + qM.ab + qC = 0
           LET q == PlonkGateCoeffs[n]
           IN Assert((q[1] * a[1] + q[2] * a[2] + q[3] * a[3] + q[4] * Mul2(a[1], a[2]) + q[5]) % P = 0)
+    \* ---- std gadgets (C14): documented relations ----
+    [] op = "GIsLess"   -> Ok(IF a[1] < a[2] THEN 1 ELSE 0)            \* cmp.IsLess on canonical representatives
+    [] op = "GIsLessEq" -> Ok(IF a[1] <= a[2] THEN 1 ELSE 0)           \* cmp.IsLessOrEqual
+    \* selector.Mux(sel, inputs...): inputs[sel]; sel outside 0..n-1 is unsatisfiable
+    [] op \in {"GMux2", "GMux3", "GMux4", "GMux5"} ->
+          LET nin == Len(a) - 1 IN IF a[1] < nin THEN Ok(a[2 + a[1]]) ELSE Fail
+    \* selector.Map(query, keys = <<1, 5, P-1>>, values): the value of the matching key; no match is unsatisfiable
+    [] op = "GMap3" -> IF a[1] = 1 THEN Ok(a[2]) ELSE IF a[1] = 5 THEN Ok(a[3]) ELSE IF a[1] = P - 1 THEN Ok(a[4]) ELSE Fail
+    \* selector.Decoder(n = 3, sel): unit vector; sel outside 0..2 is unsatisfiable
+    [] op = "GDecoder3" -> IF a[1] < 3 THEN [ok |-> TRUE, out |-> [k \in 1..3 |-> IF k - 1 = a[1] THEN 1 ELSE 0], any |-> FALSE] ELSE Fail
+    \* bitslice.Partition(v, split = n): v = lower + upper * 2^n with lower < 2^n (and upper < 2^(bits-n))
+    [] op = "GPartition" -> [ok |-> TRUE, out |-> <<a[1] % Pow2(n), a[1] \div Pow2(n)>>, any |-> FALSE]
     [] op = "AssertIsEqual" -> Assert(a[1] = a[2])
     [] op = "AssertIsDifferent" -> Assert(a[1] # a[2])
     [] op = "AssertIsBoolean" -> Assert(IsBool(a[1]))
@@ -90,13 +102,17 @@ Eval(op, a, n) ==
 Ops == {"Add", "Add3", "Sub", "Sub3", "Neg", "Mul", "Mul3", "MulAcc", "Div", "DivUnchecked", "Inverse",
         "ToBinary", "FromBinary", "Xor", "Or", "And", "Select", "Lookup2", "IsZero", "Cmp",
         "AssertIsEqual", "AssertIsDifferent", "AssertIsBoolean", "AssertIsCrumb", "AssertIsLessOrEqual",
-        "PlonkExpr", "PlonkGate"}
+        "PlonkExpr", "PlonkGate",
+        "GIsLess", "GIsLessEq", "GMux2", "GMux3", "GMux4", "GMux5", "GMap3", "GDecoder3", "GPartition"}
 
 Arity(op) ==
-  CASE op \in {"Neg", "Inverse", "ToBinary", "IsZero", "AssertIsBoolean", "AssertIsCrumb"} -> 1
-    [] op \in {"Add", "Sub", "Mul", "Div", "DivUnchecked", "Xor", "Or", "And", "Cmp", "PlonkExpr",
+  CASE op \in {"Neg", "Inverse", "ToBinary", "IsZero", "AssertIsBoolean", "AssertIsCrumb", "GDecoder3", "GPartition"} -> 1
+    [] op \in {"Add", "Sub", "Mul", "Div", "DivUnchecked", "Xor", "Or", "And", "Cmp", "PlonkExpr", "GIsLess", "GIsLessEq",
                "AssertIsEqual", "AssertIsDifferent", "AssertIsLessOrEqual"} -> 2
-    [] op \in {"Add3", "Sub3", "Mul3", "MulAcc", "FromBinary", "Select", "PlonkGate"} -> 3
+    [] op \in {"Add3", "Sub3", "Mul3", "MulAcc", "FromBinary", "Select", "PlonkGate", "GMux2"} -> 3
+    [] op \in {"GMux3", "GMap3"} -> 4
+    [] op = "GMux4" -> 5
+    [] op = "GMux5" -> 6
     [] op = "Lookup2" -> 6
 
 (* sanity theorems checked by TLC in ApiSemantics.cfg *)
